@@ -14,7 +14,7 @@ OUTSIDE = ["character-level escaping (msdparser)", "more than 3 chart properties
 
 
 def obligations(tier):
-    T = 90 if tier == "quick" else 600
+    T = 90 if tier == "quick" else 900
     obs = [dict(name="selftest_strip", func="selftest_strip", file="xhlib.py", timeout=60, bounds="engine self-test")]
     for npos in range(3):
         for nk in (False, True):
@@ -46,5 +46,5 @@ def replay(data):
 
 
 def main(tier):
-    return xhprop.main(PROP, tier, FILE, obligations(tier), FUNCTIONS, ASSUMPTIONS, OUTSIDE, signature,
+    return xhprop.main(PROP, tier, FILE, obligations(tier), FUNCTIONS, ASSUMPTIONS, OUTSIDE, signature, extra_chars=(1 if tier == "thorough" else 0),
                        bounds="values <=2..3 characters, <=3 chart properties incl. note data at every position, <=2 charts")
